@@ -26,6 +26,9 @@ pub enum InjKind {
     /// the network duplicates the nth genuine ack frame travelling to this endpoint; the copy arrives
     /// `delay_us` after the original (0 = in the same interval, right behind it)
     DupAck { nth: u16, delay_us: u32 },
+    /// the nth genuine ack frame handed to this endpoint additionally claims frames the endpoint has already seen
+    /// acknowledged (a repeated acknowledgement bundled with fresh ones; selector bits choose which; nth = 0xFFFF: every ack frame)
+    ExtendAck { nth: u16, sel: u32 },
 }
 
 #[derive(Clone, Debug, Serialize, Deserialize)]
@@ -51,6 +54,7 @@ fn kind_strategy() -> impl Strategy<Value = InjKind> {
         2 => (0u8..8).prop_map(|back| InjKind::Mixed { back }),
         1 => (1u32..100_000, any::<u32>()).prop_map(|(behind, bitfield)| InjKind::Stale { behind, bitfield: bitfield | 1 }),
         5 => (prop_oneof![2 => 0u16..10, 2 => 0u16..60, 1 => 0u16..300], prop_oneof![3 => Just(0u32), 2 => 1u32..30_000, 1 => 30_000u32..2_000_000]).prop_map(|(nth, delay_us)| InjKind::DupAck { nth, delay_us }),
+        5 => (prop_oneof![2 => Just(0xFFFFu16), 1 => 0u16..10, 1 => 0u16..60], prop_oneof![Just(u32::MAX), any::<u32>()]).prop_map(|(nth, sel)| InjKind::ExtendAck { nth, sel }),
     ]
 }
 
@@ -102,6 +106,9 @@ fn run_once(sc: &PairScenario, inj: Option<&[Injection]>) -> RunOut {
                 // acks travelling to endpoint e are put on the link of endpoint 1 - e
                 let e = (i.ep % 2) as usize;
                 sim.dup_acks[1 - e].push((*nth as u32, *delay_us));
+            }
+            if let InjKind::ExtendAck { nth, sel } = &i.kind {
+                sim.ext_acks[(i.ep % 2) as usize].push((*nth as u32, *sel));
             }
         }
     }
@@ -178,7 +185,7 @@ fn run_once(sc: &PairScenario, inj: Option<&[Injection]>) -> RunOut {
                         classes.push("mixed_known_unknown");
                         vec![AckGroup { base_id, bitfield, nonce }]
                     }
-                    InjKind::DupAck { .. } => continue,
+                    InjKind::DupAck { .. } | InjKind::ExtendAck { .. } => continue,
                     InjKind::Stale { behind, bitfield } => {
                         classes.push("stale_behind");
                         vec![AckGroup { base_id: sc.dirs[e].frm_base.wrapping_sub(*behind), bitfield: *bitfield, nonce: false }]
@@ -211,6 +218,11 @@ fn run_once(sc: &PairScenario, inj: Option<&[Injection]>) -> RunOut {
             }
         }
     }
+    if sim.acks_extended > 0 {
+        injected += sim.acks_extended;
+        recent += sim.acks_extended;
+        classes.push("ack_extended_with_repeated_claims");
+    }
     RunOut { trace: sim.finish(), injected, recent, classes }
 }
 
@@ -233,7 +245,7 @@ impl Check for C15 {
     }
 
     fn rule(&self) -> String {
-        "case = SimPair scenario + list of injections; the scenario is run twice with identical clock and nonce streams, the second time additionally handing the senders, between ticks, ack frames that must be inert: genuine earlier ack groups replayed (any age), groups over really-sent frames with the nonce inverted (any bitfield, including ones that do not claim their own base frame), groups ahead of / far behind the frame log, groups mixing sent and never-sent ids, and network duplicates of genuine ack frames arriving right behind the original (same step interval) or up to 2 s later; every forged frame carries the window bases of the latest genuine ack that endpoint handled, so it cannot move a window. Oracle: both runs emit byte-identical frames at identical virtual times and report identical rtt_s(), allowed rate, is_send_pending(), send_buffer_size() and queue lengths at every snapshot, and deliver identically. Non-trivial = at least one injected group referred to a frame sent within the last virtual second. Distinct = distinct serialised case.".into()
+        "case = SimPair scenario + list of injections; the scenario is run twice with identical clock and nonce streams, the second time additionally handing the senders, between ticks, ack frames that must be inert: genuine earlier ack groups replayed (any age), groups over really-sent frames with the nonce inverted (any bitfield, including ones that do not claim their own base frame), groups ahead of / far behind the frame log, groups mixing sent and never-sent ids, network duplicates of genuine ack frames arriving right behind the original (same step interval) or up to 2 s later, and genuine ack frames whose groups additionally claim frames the sender has already seen acknowledged (repeated acknowledgements bundled with fresh ones; only frames still in the sender's log, with the nonce adjusted, never gaining a rate-limited frame); every forged frame carries the window bases of the latest genuine ack that endpoint handled, so it cannot move a window. Oracle: both runs emit byte-identical frames at identical virtual times and report identical rtt_s(), allowed rate, is_send_pending(), send_buffer_size() and queue lengths at every snapshot, and deliver identically. Non-trivial = at least one injected group referred to a frame sent within the last virtual second. Distinct = distinct serialised case.".into()
     }
 
     fn assumptions(&self) -> Vec<String> {
@@ -249,6 +261,14 @@ impl Check for C15 {
         sc.normalize();
         let a = run_once(&sc, None);
         let b = run_once(&sc, Some(&case.inj));
+        if std::env::var_os("VERIF_DEBUG").is_some() {
+            for (name, r) in [("A", &a), ("B", &b)] {
+                for e in 0..2 {
+                    eprintln!("run {name} ep{e} rtt trace: {:?}", r.trace.stats[e].iter().map(|s| (s.t_us, s.rtt_s.map(|x| (x * 1e6) as u64))).collect::<Vec<_>>());
+                    eprintln!("run {name} ep{e} wire: {:?}", r.trace.wire[e].iter().map(|w| (w.t_us, Frame::read(&w.bytes).map(|f| crate::props::c16::short_frame(&f)))).collect::<Vec<_>>());
+                }
+            }
+        }
         let mut classes = b.classes.clone();
         classes.sort();
         classes.dedup();
